@@ -6,31 +6,38 @@ EXTENDS TrackerCore
 (* validation of the real object's transitions, through what the state     *)
 (* MEANS (C06 speaks of waits and releases, not of lists):                 *)
 (*   wait : dependency -> bag of waiters (dependencies somebody waits for) *)
-(*   rel  : the waited-for dependencies that are met and not yet drained   *)
-(* A release may hand out ANY waiter of ANY releasable dependency; met     *)
-(* names nobody waits for, names met twice and emptied lists do not count. *)
+(*   met  : the SET of dependencies met and not yet passed over by a drain *)
+(* A release may hand out ANY waiter of ANY met dependency that has        *)
+(* waiters; the order of the lists, a name met twice, emptied lists left   *)
+(* behind and the moment at which a met name nobody waits for is forgotten *)
+(* DURING A DRAIN are representation.  Forgetting a met name at meet()     *)
+(* time is not: a waiter that registers before the next drain is due (the  *)
+(* property quantifies over every history of register / meet / drain).     *)
 (***************************************************************************)
 Trans == TLCEval(JsonDeserialize(IOEnv.HV_TRK_FILE)).trans
 SeqToSet(q) == {q[j] : j \in 1..Len(q)}
 NonEmpty(U) == {d \in DOMAIN U : U[d] # <<>>}
 BagOf(q) == [x \in SeqToSet(q) |-> Cardinality({j \in 1..Len(q) : q[j] = x})]
-Abs(st) == [wait |-> [d \in NonEmpty(st.unmet) |-> BagOf(st.unmet[d])],
-            rel  |-> SeqToSet(st.met) \cap NonEmpty(st.unmet)]
-TakeOne(a, d, w) ==
-  LET n == a.wait[d][w]
-      bag == IF n > 1 THEN [a.wait[d] EXCEPT ![w] = n - 1] ELSE [x \in DOMAIN a.wait[d] \ {w} |-> a.wait[d][x]]
-  IN IF DOMAIN bag = {} THEN [wait |-> [e \in DOMAIN a.wait \ {d} |-> a.wait[e]], rel |-> a.rel \ {d}]
-     ELSE [wait |-> [a.wait EXCEPT ![d] = bag], rel |-> a.rel]
+Abs(st) == [wait |-> [d \in NonEmpty(st.unmet) |-> BagOf(st.unmet[d])], met |-> SeqToSet(st.met)]
+Due(a) == a.met \cap DOMAIN a.wait
+WaitTakeOne(wt, d, w) ==
+  LET n == wt[d][w]
+      bag == IF n > 1 THEN [wt[d] EXCEPT ![w] = n - 1] ELSE [x \in DOMAIN wt[d] \ {w} |-> wt[d][x]]
+  IN IF DOMAIN bag = {} THEN [e \in DOMAIN wt \ {d} |-> wt[e]] ELSE [wt EXCEPT ![d] = bag]
 
 TransOk(x) ==
   LET a == Abs(x.pre) b == Abs(x.post) IN
-  IF x.op.op = "next" THEN
-       IF a.rel = {} THEN x.ret = "STOP" /\ b = a
-       ELSE \E d \in a.rel : x.ret \in DOMAIN a.wait[d] /\ b = TakeOne(a, d, x.ret)
-  ELSE LET r == Step(x.pre, x.op) IN
-       /\ Abs(r.st) = b
-       /\ IF x.op.op = "has_met" THEN (a.rel # {} => x.ret = "True") /\ x.ret \in {"True", "False"}
-          ELSE x.ret = r.ret
+  CASE x.op.op = "next" ->
+         IF Due(a) = {} THEN x.ret = "STOP" /\ b.wait = a.wait /\ b.met \subseteq a.met
+         ELSE \E d \in Due(a) : /\ x.ret \in DOMAIN a.wait[d]
+                                 /\ b.wait = WaitTakeOne(a.wait, d, x.ret)
+                                 /\ b.met \subseteq a.met
+                                 /\ (a.met \cap DOMAIN b.wait) \subseteq b.met          \* what is still due stays due
+    [] x.op.op = "add" -> b = Abs(Step(x.pre, x.op).st) /\ x.ret = "None"
+    [] x.op.op = "meet" -> b.wait = a.wait /\ b.met = a.met \cup {x.op.d} /\ x.ret = "None"
+    [] x.op.op = "has_met" -> b = a /\ x.ret \in {"True", "False"} /\ (Due(a) # {} => x.ret = "True")
+    [] x.op.op = "has_unmet" -> b = a /\ x.ret = Step(x.pre, x.op).ret
+    [] OTHER -> FALSE
 
 VARIABLE k
 VInit == k = 0
